@@ -136,6 +136,9 @@ CropIndices(w, h, b) == { b[CI8Index(w, x, y) + 1] : x \in 0..(w - 1), y \in 0..
 
 GenCases ==
   { <<"T-ctpk", f, p[1], p[2]>> : f \in Formats3DS, p \in TexPairs }
+  \* the complete format x container matrix: every format also through BCH and CGFX
+  \cup { <<"T-head", cc, f, p[1], p[2]>> : cc \in {"bch", "cgfx"}, f \in Formats3DS, p \in { <<8, 8>>, <<16, 8>>, <<64, 32>> } }
+  \cup { <<"G-texc", cc, f, pat>> : cc \in {"bch", "cgfx"}, f \in PlainFormats, pat \in {"pat", "pos"} }
   \* w * h = 65 536: beyond 16 bits (8-bit formats keep the payload at 64 KiB)
   \cup { <<"T-ctpk", L8, 256, 256>>, <<"T-ctpk", A8, 512, 128>> }
   \cup { <<"T-tpl", w, h>> : w \in TplSides, h \in TplSides }
@@ -149,8 +152,19 @@ GenCases ==
 Emit ==
   CASE c[1] = "root" -> TRUE
     [] c[1] = "T-ctpk" ->
-         PrintT("T " \o ToJson([kind |-> "ctpk", fmt |-> c[2], w |-> c[3], h |-> c[4], nrand |-> NRand(<<c[3], c[4]>>),
+         PrintT("T " \o ToJson([kind |-> "ctpk", c |-> "ctpk", fmt |-> c[2], w |-> c[3], h |-> c[4], nrand |-> NRand(<<c[3], c[4]>>),
                                head |-> CtpkCanonHead(TName, c[2], c[3], c[4])]))
+    [] c[1] = "T-head" ->
+         /\ Assert(CanonPayloadLast(c[2], TName, c[3], c[4], c[5]), "payload is not the end of the canonical image")
+         /\ PrintT("T " \o ToJson([kind |-> "ctpk", c |-> c[2], fmt |-> c[3], w |-> c[4], h |-> c[5], nrand |-> 1,
+                                  head |-> CanonHead(c[2], TName, c[3], c[4], c[5])]))
+    [] c[1] = "G-texc" ->
+         LET cc == c[2]  f == c[3]  w == 16  h == 8
+             b == IF c[4] = "pos" THEN PosPayload(f, w, h) ELSE PatPayload(f, w, h)
+             srcs == ImageSrcs(f, w, h, b)
+         IN PrintT("G " \o ToJson([api |-> "ctpk", c |-> cc, fmt |-> f, w |-> w, h |-> h, payload |-> b, pal |-> <<>>,
+                                  file |-> CanonHead(cc, TName, f, w, h) \o b,
+                                  lo |-> BoundOf(srcs, FALSE), hi |-> BoundOf(srcs, TRUE)]))
     [] c[1] = "T-tpl" ->
          \* single-image TPL with zeroed data; the recorder overwrites palette and image data
          LET w == c[2]  h == c[3]  n == 1 + ((w * 7 + h * 13) % 256)
